@@ -101,6 +101,7 @@ var _ = vl.Less
 func vJSON(c *List[int]) containers.VJSON {
 	return containers.VJSON{C: c, ToJSON: c.ToJSON, FromJSON: c.FromJSON,
 		Marshal: func() ([]byte, error) { return json.Marshal(c) },
+		Unmarshal: func(data []byte) error { return json.Unmarshal(data, c) },
 		Inv:     func() { VInv(c) },
 		Step:    func() { x := v.Int("sx"); c.Add(x); y, ok := c.Get(c.Size() - 1); v.Assert(v.And(ok, y == x), "C12:add-after-load") },
 		Fresh:   func() containers.VJSON { return vJSON(New[int]()) },
